@@ -58,7 +58,7 @@ PROPS = {
                 focus={'entityDelete', 'updatePose', 'assetAdd'},
                 topics=slice_of(['entityDelete', 'updatePose', 'assetAdd'],
                                 outs={'error', 'entityDeleteResp', 'entityDeleteBcast', 'poseBcast', 'assetAddResp', 'assetAddBcast'})),
-    'C06': dict(extra=['conc_explore'], modules=['Hagall.Props.C06'], profiles=['join', 'module', 'comp', 'mixed'], n=(240, 4000),
+    'C06': dict(extra=['conc_explore'], modules=['Hagall.Props.C06'], profiles=['join', 'module', 'comp', 'mixed', 'subs'], n=(240, 4000),
                 focus={'join', 'entityAdd', 'compAdd', 'action', 'assetAdd'},
                 topics=slice_of(['disconnect', 'join', 'receipt'], kinds=['outcome'],
                                 outs={'leaveBcast', 'entityDeleteBcast', 'sessionState', 'vikjaState', 'odalState'})),
